@@ -129,6 +129,8 @@ def run(tier, seed):
                  "headers at once (the suite's sizes stay below 2^24 and it has no 0x52/0x53 headers). Not decided: name "
                  "normalisation (lower-casing, separators beyond C11's rules), mktime's arithmetic, position of member data.")
     with Context(tier) as ctx:
+        from .. import selfcheck
+        selfcheck.run(ctx, rep, ['gf2', 'facts'])
         mod = ctx.plain()
         rep.analysed = {"view": "plain", "functions": len(mod.defined())}
 
